@@ -25,7 +25,11 @@ func init() {
 				d = 5
 			}
 			for _, cfg := range []string{"flushy", "nopool", "nocache", "nopoolcache", "snappy", "tinycache", "default", "defaultnopool", "bigbatch"} {
-				specs = append(specs, seqSpec{Cfg: cfg + "/bytewise", Alpha: c20Alpha, Depth: d, Checks: "db,views", Mode: "scribble,every"})
+				dd := d
+				if c.Tier == "quick" && (cfg == "flushy" || cfg == "nopool" || cfg == "bigbatch") {
+					dd = d + 1 // the three option sets where data moves between buffers, pool and tables most
+				}
+				specs = append(specs, seqSpec{Cfg: cfg + "/bytewise", Alpha: c20Alpha, Depth: dd, Checks: "db,views", Mode: "scribble,every"})
 			}
 			runSpecs(c, "C20", specs,
 				"breadth-first search over operation sequences on the grid {buffer pool on/off} x {block cache on/off/tiny} x {snappy/none} x {data in tables / in buffers}; every argument buffer is overwritten right after its call returns, every Get result after it was compared; full read-back (DB, snapshots, held iterator, transaction) after every step of every sequence against a model holding private copies",
